@@ -16,7 +16,7 @@ for p in props:
       "evidence_file":f"/verif/evidence/{p['id']}.json",
       "replay_cmd_template":"./check replay {path}",
       "engine":"vcgo",
-      "level_claimed":{"category":c.get("category","proof"),"text":c["text"],"design_ref":c.get("design_ref","DESIGN.md section 7 "+p['id'])},
+      "level_claimed":{"category":c.get("category","proof"),"text":c["text"],"design_ref":c.get("design_ref","DESIGN.md section 10.2 (as built) and section 7 "+p["id"]+" (plan)")},
       "level_note":c["note"],
       "technique":c.get("technique","contract-based deductive verification: weakest-precondition VCs generated from go/ssa of the real functions against //@ contracts, discharged by z3/cvc5"),
     })
